@@ -163,6 +163,33 @@ def run(facts):
         res.bad(key, b.loc(), "; ".join(sorted(set(probs))))
     else:
         res.ok(key, b.loc(), "low bit == 0 -> (ptr | KIND_VEC, even vtable); else (ptr, odd vtable); empty box returns early", nontrivial=True)
+    # vtable identity tests: a decision that singles out the promotable representation must cover both parities alike
+    from .flow import edge_conditions
+    n_tests = 0
+    for fb in facts.fn_bodies():
+        hits = {}
+        for (s_, d_, c_, v_) in edge_conditions(fb, facts):
+            st = [y[1] for y in walk(canon(c_)) if y[0] == "static" and y[1] in (even[0], odd[0])]
+            if st and v_ == ("eq", 1):
+                hits.setdefault(st[0], []).append(d_)
+
+        def follow(bi):
+            seen = set()
+            while fb.blocks[bi]["term"]["k"] == "goto" and all(x["k"] not in ("assign", "set_discr", "copy_nonoverlapping") for x in fb.blocks[bi]["stmts"]) and bi not in seen:
+                seen.add(bi)
+                bi = fb.blocks[bi]["term"]["target"]
+            return bi
+        if not hits:
+            continue
+        n_tests += 1
+        key = "%s|vtable identity test covers both parities" % fb.id
+        if set(hits) != {even[0], odd[0]}:
+            res.bad(key, fb.loc(), "the handle is compared with %s only: behaviour differs between even and odd allocation addresses" % sorted(hits))
+        elif sorted(set(follow(x) for x in hits[even[0]])) != sorted(set(follow(x) for x in hits[odd[0]])):
+            res.bad(key, fb.loc(), "the even and the odd vtable lead to different code")
+        else:
+            res.ok(key, fb.loc(), "both promotable vtables are tested and lead to the same branch", nontrivial=True)
+    res.floor("vtable_identity_tests", n_tests, 1)
     # constants and alignment assertions
     consts = {}
     for cb in facts.bodies:
